@@ -11,8 +11,7 @@ use crate::uci::Flounder;
 
 pub const NKINDS: u8 = 12;
 static mut UNKNOWN: [u8; 6] = [b'x'; 6];
-static mut UNKNOWN_LEN: usize = 6;
-fn unknown_line() -> &'static str { unsafe { core::str::from_utf8_unchecked(core::slice::from_raw_parts(core::ptr::addr_of!(UNKNOWN) as *const u8, UNKNOWN_LEN)) } }
+fn unknown_line() -> &'static str { "<unknown line: symbolic bytes>" }
 /// the line kinds a script is drawn from
 fn line_of(kind: u8) -> &'static str {
     match kind {
@@ -20,14 +19,26 @@ fn line_of(kind: u8) -> &'static str {
         7 => "  isready  ", 8 => "position startpos", 9 => "go depth 1", 10 => "xyzzy uci", _ => "ucii",
     }
 }
+pub struct Hl { pub magic: u64, pub unknown_len: usize, pub nlines_in: usize, pub checked: bool }
+pub static mut HL: Hl = Hl { magic: 0x5EED_1001_0BAD_F00D, unknown_len: 6, nlines_in: 0, checked: false };
 static mut KINDS: [u8; 4] = [3; 4];
-static mut NLINES_IN: usize = 0;
-static mut CHECKED: bool = false;
+/// appends line i of the current script to the engine's read buffer (called by the stdin model); the unknown
+/// line is appended byte by byte (a &str made from the static byte buffer with from_raw_parts made CBMC
+/// report dead-object dereferences)
+pub fn push_script_line(i: usize, buf: &mut String) -> usize {
+    let k = unsafe { KINDS[if i < 4 { i } else { 3 }] };
+    if k == 5 {
+        let n = unsafe { HL.unknown_len };
+        macro_rules! b { ($j:expr) => { if $j < n { buf.push(unsafe { UNKNOWN[$j] } as char); } }; }
+        b!(0); b!(1); b!(2); b!(3); b!(4); b!(5);
+        n
+    } else { let l = line_of(k); buf.push_str(l); l.len() }
+}
 
 /// What the property prescribes for the script, compared with the captured output and exit status.
 pub fn final_checks() {
-    unsafe { CHECKED = true; }
-    let n = unsafe { NLINES_IN };
+    unsafe { HL.checked = true; }
+    let n = unsafe { HL.nlines_in };
     // expected non-info output lines, in order
     let mut want = [0u8; 16]; let mut w = 0; let mut quit = false;
     macro_rules! line { ($i:expr) => { if $i < n && !quit { match unsafe { KINDS[$i] } {
@@ -40,10 +51,10 @@ pub fn final_checks() {
     let mut got = 0; let mut ok = true;
     macro_rules! outl { ($i:expr) => { if $i < out::n() { let k = out::line($i).kind; if k != out::K_INFO { if got < w && want[got] == k { got += 1; } else { ok = false; } } } }; }
     outl!(0); outl!(1); outl!(2); outl!(3); outl!(4); outl!(5); outl!(6); outl!(7); outl!(8); outl!(9); outl!(10); outl!(11);
-    vassert!(!unsafe { out::OVERFLOW }, "C16: more output lines than any correct answer has");
+    vassert!(!unsafe { out::OUT.overflow }, "C16: more output lines than any correct answer has");
     vassert!(ok, "C16: output contains a line the protocol does not prescribe for this input (or lines in the wrong order)");
     vassert!(got == w, "C16: a prescribed answer (id/uciok, readyok or bestmove) is missing");
-    let code = unsafe { envmodel::EXIT_CODE };
+    let code = unsafe { envmodel::ENV.exit_code };
     if quit { vassert!(code == Some(0), "C16: quit did not terminate the process with status 0"); }
     else { vassert!(code.is_none() || code == Some(0), "C16: process terminated with a non-zero status at end of input"); }
     vcover!(quit && w >= 4, "handshake, readyok, quit");
@@ -56,20 +67,20 @@ fn run_script(nlines: usize, alt: [[u8; 2]; 4]) {
     setup_game(1, 0);
     let mut script: [&'static str; 4] = [""; 4];
     unsafe {
-        let ul = sym::u8() as usize; sym::assume(ul >= 1 && ul <= 6); UNKNOWN_LEN = ul;
+        let ul = sym::u8() as usize; sym::assume(ul >= 1 && ul <= 6); HL.unknown_len = ul;
         // unknown line: printable ASCII, first character none of the command initials
         macro_rules! ub { ($i:expr) => { let c = sym::u8(); sym::assume(c >= 0x20 && c < 0x7f); UNKNOWN[$i] = c; }; }
         ub!(0); ub!(1); ub!(2); ub!(3); ub!(4); ub!(5);
         let c0 = UNKNOWN[0];
         sym::assume(c0 != b'u' && c0 != b'i' && c0 != b'p' && c0 != b'g' && c0 != b'q' && c0 != b' ');
-        NLINES_IN = nlines; CHECKED = false;
+        HL.nlines_in = nlines; HL.checked = false;
         macro_rules! pick { ($i:expr) => { if $i < nlines {
             let k = if alt[$i][0] == alt[$i][1] { alt[$i][0] } else if sym::bool() { alt[$i][0] } else { alt[$i][1] };
             KINDS[$i] = k; script[$i] = line_of(k); } }; }
         pick!(0); pick!(1); pick!(2); pick!(3);
         vnote!("script", "{:?} then end of input", &script[..nlines]);
-        envmodel::reset(&script[..nlines]);
-        envmodel::AT_EXIT_C16 = true;
+        envmodel::reset(nlines);
+        envmodel::ENV.at_exit_c16 = true;
     }
     out::reset();
     let mut f = Flounder::new();
@@ -91,11 +102,13 @@ script_harness!(c16_eof_only, 0, [[3, 3]; 4]);
 script_harness!(c16_line_uci, 1, [[0, 0]; 4]);
 script_harness!(c16_line_isready, 1, [[1, 1]; 4]);
 script_harness!(c16_line_ucinewgame, 1, [[2, 2]; 4]);
-script_harness!(c16_line_blank, 1, [[3, 4]; 4]);
+script_harness!(c16_line_blank, 1, [[3, 3]; 4]);
+script_harness!(c16_line_blanks, 1, [[4, 4]; 4]);
 script_harness!(c16_line_unknown, 1, [[5, 5]; 4]);
 script_harness!(c16_line_quit, 1, [[6, 6]; 4]);
 script_harness!(c16_line_padded_isready, 1, [[7, 7]; 4]);
 script_harness!(c16_line_position, 1, [[8, 8]; 4]);
 script_harness!(c16_line_go, 1, [[9, 9]; 4]);
-script_harness!(c16_line_near_miss, 1, [[10, 11]; 4]);
+script_harness!(c16_line_near_miss1, 1, [[10, 10]; 4]);
+script_harness!(c16_line_near_miss2, 1, [[11, 11]; 4]);
 include!("gen/h_c16_cases.rs");
